@@ -4,6 +4,9 @@ CONSTANTS Procs = {"p1", "p2"}
           Addrs = {1, 2}
           MaxCrash = 0
           MaxPre <- Unbounded
-INVARIANTS TypeOK LockSound OneInstaller DispatcherUp EthDistinct WindowsDistinct
+          Mutex = TRUE
+          LockedInit = TRUE
+          Bare = FALSE
+INVARIANTS TypeOK LockSound MutexSound OneInstaller DispatcherUp EthDistinct WindowsDistinct
 ALIAS Alias
 CHECK_DEADLOCK FALSE
